@@ -871,6 +871,9 @@ impl Property for C12 {
             "exp2_flush_subnormal",
         ]
     }
+    fn enumerated_runs(&self, tier: Tier) -> u64 {
+        GRID + GRID2 + GRID3 + GRID4 + grid5(tier)
+    }
     fn stall_is_violation(&self) -> Option<(&'static str, u64)> {
         // C12 states termination. The step clock covers the Newton loop; anything else that fails to
         // return (a run normally takes well under a second) is caught by this wall-clock backstop.
